@@ -42,6 +42,13 @@ pub enum TOp {
     /// the k-th instruction of `preludes()`: a well-formed instruction that declares no numeric type and no value (every
     /// OpExtension name the grammar mentions, every OpCapability, imports, a memory model): it must not change any width
     Prelude(usize),
+    /// the k-th type-declaring opcode of the grammar other than OpTypeInt / OpTypeFloat (vector, matrix, array, pointer,
+    /// struct, image ..), every id operand naming the most recently defined id: a type that is not numeric, whatever it is made of
+    TComposite(usize),
+    /// OpSwitch whose selector is (most recently defined id) XOR (1 << k): an id nothing defines; one case of `wpl` words
+    SwitchAlias(u32, usize),
+    /// OpConstant whose result type is (most recently defined id) XOR (1 << k): an id nothing defines; `n` literal words
+    ConstAlias(u32, usize),
 }
 
 /// instructions that carry no numeric type: what a literal's width is must not depend on any of them
@@ -70,6 +77,16 @@ pub fn preludes() -> Vec<Inst> {
             out.push(Inst::new("MemoryModel", None, None, vec![Arg::Enum("AddressingModel", a), Arg::Enum("MemoryModel", m)]));
         }
         out
+    })
+    .clone()
+}
+
+/// type-declaring opcodes other than the two numeric ones (minimal shapes)
+pub fn composite_types() -> Vec<Inst> {
+    static P: std::sync::OnceLock<Vec<Inst>> = std::sync::OnceLock::new();
+    P.get_or_init(|| {
+        let g = golden();
+        g.insts.iter().filter(|gi| gi.name.starts_with("Type") && gi.has_rid() && !gi.has_rtype() && gi.name != "TypeInt" && gi.name != "TypeFloat").map(|gi| crate::universe::minimal(gi)).collect()
     })
     .clone()
 }
@@ -234,6 +251,59 @@ fn build_h(h: &[TOp], scheme: usize, version: u32, bound: u32) -> Built {
                 next += 1;
                 w.extend([op("TypeBool"), id]);
                 exp = Exp::Accept(vec![]);
+                defined.push(id);
+            }
+            TOp::TComposite(k) => {
+                let Some(&last) = defined.last() else {
+                    enabled = false;
+                    break;
+                };
+                let id = scheme_id(scheme, next);
+                next += 1;
+                let mut i = model::remap_ids(&composite_types()[k], &|_| last);
+                i.rid = Some(id);
+                let mut e = model::enc(&i);
+                e[0] &= 0xFFFF;
+                w.extend(e);
+                exp = Exp::Accept(model::to_dr(&i).map(|d| d.operands).unwrap_or_default());
+                defined.push(id);
+            }
+            TOp::SwitchAlias(k, wpl) => {
+                let Some(&last) = defined.last() else {
+                    enabled = false;
+                    break;
+                };
+                let sel = last ^ (1u32 << k);
+                if sel == 0 || defined.contains(&sel) || map.contains_key(&sel) {
+                    enabled = false;
+                    break;
+                }
+                w.extend([op("Switch"), sel, 60]);
+                let tail: Vec<u32> = (0..wpl).map(|j| 0x2222_0000 * (j as u32 + 1)).chain([61]).collect();
+                w.extend(&tail);
+                // nothing is known about an undefined selector: one word per literal
+                exp = if wpl == 1 { Exp::Accept(vec![dr::Operand::IdRef(sel), dr::Operand::IdRef(60), lit_operand(&tail[..1]), dr::Operand::IdRef(61)]) } else { Exp::Reject(MISSING) };
+            }
+            TOp::ConstAlias(k, n) => {
+                let Some(&last) = defined.last() else {
+                    enabled = false;
+                    break;
+                };
+                let t = last ^ (1u32 << k);
+                if t == 0 || defined.contains(&t) || map.contains_key(&t) {
+                    enabled = false;
+                    break;
+                }
+                let id = scheme_id(scheme, next);
+                next += 1;
+                if id == t {
+                    enabled = false;
+                    break;
+                }
+                let lits: Vec<u32> = (0..n).map(|j| (0x1111_0000 * (j as u32 + 1)).wrapping_add(id)).collect();
+                w.extend([op("Constant"), t, id]);
+                w.extend(&lits);
+                exp = if n == 1 { Exp::Accept(vec![lit_operand(&lits)]) } else { Exp::Reject(SURPLUS) };
                 defined.push(id);
             }
             TOp::Prelude(k) => {
@@ -524,6 +594,49 @@ pub fn run(tier: Tier) -> Run {
             })
             .collect();
         run.outcome("prelude_histories", (np * tails.len()) as u64);
+        for v in res {
+            run.add_all(v);
+        }
+    }
+    // ---- composite types and alias ids: (a) every non-numeric type-declaring opcode built from a 64-bit / odd-width /
+    //      narrow scalar, then a constant typed by it, a value of it and a switch on that value: only OpTypeInt / OpTypeFloat
+    //      carry a width; (b) a switch / constant whose selector / type id differs from a defined 64-bit (or unsupported) id
+    //      in exactly one bit, for each of the 32 bits: an id nothing defines is unknown, whatever ids it resembles
+    {
+        let nct = composite_types().len();
+        let mut hs: Vec<Vec<TOp>> = vec![];
+        for base in [TOp::TInt(64, 0), TOp::TInt(24, 0), TOp::TFloat(64), TOp::TInt(16, 1), TOp::TFloat(128)] {
+            for k in 0..nct {
+                for tail in [vec![TOp::ConstLast(1)], vec![TOp::ConstLast(2)], vec![TOp::UndefLast, TOp::SwitchLast(1)], vec![TOp::UndefLast, TOp::SwitchLast(2)]] {
+                    let mut h = vec![base.clone(), TOp::TComposite(k)];
+                    h.extend(tail);
+                    hs.push(h);
+                }
+            }
+            for k in 0..32u32 {
+                for n in 1..=2usize {
+                    hs.push(vec![base.clone(), TOp::UndefLast, TOp::SwitchAlias(k, n)]);
+                    hs.push(vec![base.clone(), TOp::ConstAlias(k, n)]);
+                    hs.push(vec![base.clone(), TOp::UndefLast, TOp::ConstAlias(k, n)]);
+                    hs.push(vec![TOp::TInt(32, 0), base.clone(), TOp::ConstLast(1), TOp::SwitchAlias(k, n)]);
+                }
+            }
+        }
+        let res: Vec<Vec<Viol>> = hs
+            .par_iter()
+            .map(|h| {
+                let mut out = vec![];
+                for scheme in [0usize, 2, 4] {
+                    for v in run_hist_s(h, scheme).viols {
+                        if out.is_empty() {
+                            out.push(Viol { key: format!("{}:composite-or-alias", v.key), what: format!("(id scheme {}) {}", scheme, v.what), replay: v.replay });
+                        }
+                    }
+                }
+                out
+            })
+            .collect();
+        run.outcome("composite_and_alias_histories", hs.len() as u64 * 3);
         for v in res {
             run.add_all(v);
         }
